@@ -43,6 +43,7 @@ type Contract struct {
 	Fresh    bool // extern: result is a freshly allocated reference
 	Trusted  bool // extern/iface: assumed, not proved
 	Params   []string // extern/iface: parameter names for use in the contract
+	Vars     []string // func: the function's source variables in declaration order when the contract was annotated (varnames.go)
 	Sorts    []string // extern/iface: optional sorts of parameters
 	Lemma    *NamedExpr
 	Options  map[string]string
@@ -93,7 +94,7 @@ func contractFiles(repo string) ([]string, error) {
 var directiveWords = map[string]bool{
 	"property": true, "requires": true, "axiom": true, "function": true, "ensures": true, "let": true, "loop": true,
 	"modifies": true, "pure": true, "nopanic": true, "overflow": true, "inline": true,
-	"trusted": true, "params": true, "fresh": true, "option": true, "sorts": true, "callsite": true,
+	"trusted": true, "params": true, "fresh": true, "option": true, "sorts": true, "callsite": true, "vars": true,
 }
 
 func loadContracts(repo string) (*ContractDB, error) {
@@ -362,6 +363,9 @@ func (db *ContractDB) directive(c *Contract, body, file string, ln int) error {
 		c.Fresh = true
 	case "trusted":
 		c.Trusted = true
+	case "vars":
+		// written by `gvc annotate`: the function's source variables in declaration order
+		c.Vars = strings.Fields(rest)
 	case "params":
 		c.Params = strings.Fields(strings.ReplaceAll(rest, ",", " "))
 	case "sorts":
